@@ -7,10 +7,15 @@ Space (DESIGN section 4 / C12):
   call shapes every syntactically legal sequence of <= A actuals over
               {positional `1`, keyword `n=1` for n in named params + foreign `z`,
                `*t0|*t1|*t2` (fixed tuples of length 0..2),
-               `**d_K` (total TypedDict, K any subset of named params + `z`)}
+               `**d_K` (total TypedDict, K a subset of named params + `z` with <= `max_keys` keys)}
+  per-tier bounds: see bounds_for / BOUNDS_TEXT.
 All parameter/argument types are int, so any diagnostic on a call line is an arity/keyword one.
 Reference: the call is really executed (`def f(...): pass`), TypeError <=> rejected.
 Legality of signature order and of call syntax is decided by CPython's compiler, not by us.
+One generated module holds one signature and up to a few thousand call lines; it is checked by a
+real `mypy.build.build` with the bundled typeshed (in a fresh fork) and its lines are then really
+evaluated.  An INTERNAL ERROR would abort the whole module, so crashing lines are found with a
+record-and-continue shim and all other verdicts re-derived without them (see mypy_verdicts).
 """
 
 from __future__ import annotations
@@ -397,9 +402,9 @@ def runtime_results(sig_src: str, names: str, calls: list[str]) -> list[str | No
 
 
 def _norm_rt(err: str) -> str:
-    e = re.sub(r"'[a-z]+'( and '[a-z]+')*", "N", err)
+    e = re.sub(r"^[\w.]*f\(\) ", "", err)
+    e = re.sub(r"'[a-z, ]+'((,| and|, and) '[a-z]+')*", "N", e)
     e = re.sub(r"\d+", "#", e)
-    e = e.replace("c12calls.", "").replace("f() ", "")
     e = re.sub(r"arguments?", "arg", e)
     e = re.sub(r"were|was", "was", e)
     return e.strip().replace(" ", "-")
@@ -424,7 +429,6 @@ def positional_sources(shape: list) -> list[str]:
 def classify(direction: str, seq: tuple[str, ...], names: str, shape: list, rt_err: str | None,
              mypy_msgs: list[str]) -> str:
     """Cause-level signature of a disagreement (used only to GROUP violations, never to decide)."""
-    kinds = sorted({{"p": "positional", "k": "keyword", "t": "star-tuple", "d": "typeddict-kw"}[a[0]] for a in shape})
     if direction == "false-accept":
         assert rt_err is not None
         m = re.search(r"got multiple values for (keyword )?argument '([a-z]+)'", rt_err)
@@ -443,8 +447,8 @@ def classify(direction: str, seq: tuple[str, ...], names: str, shape: list, rt_e
                            if (a[0] == "k" and a[1] == who) or (a[0] == "d" and who in a[1])})
             into_kw = kind not in ("pk", "pkd", "ko", "kod")
             return f"calls:false-accept:{'+'.join(src)}-duplicate" + ("-into-**kw" if into_kw else "")
-        return f"calls:false-accept:{_norm_rt(rt_err)}:{'+'.join(kinds)}"
-    return f"calls:false-reject:{_norm_mypy(mypy_msgs)}:{'+'.join(kinds)}"
+        return f"calls:false-accept:{_norm_rt(rt_err)}"
+    return f"calls:false-reject:{_norm_mypy(mypy_msgs)}"
 
 
 # --------------------------------------------------------------------------- worker
